@@ -167,6 +167,9 @@ class Handle:
         self.family = family or hid
         self.abs_err = 0.0      # bound on the absolute error its generators inherited from derivations
 
+    def has_complex(self):
+        return any(np.any(np.abs(M.imag) > 0) for M in self.gens.values())
+
     def maxnorm(self):
         return max([1.0] + [ninf(M) for M in self.gens.values()])
 
@@ -398,12 +401,12 @@ class Engine:
             op["compute_inverse"] = (rng.random() < 0.5) or not h.simple
             op["as_dict"] = rng.random() < 0.3
         elif how == "astype":
-            if h.dtype == "complex128":
+            if h.dtype == "complex128" or h.has_complex():
                 op["dtype"] = "complex128"
             else:
                 op["dtype"] = rng.choice(["float64", "complex128"])
         elif how in ("wrap_projective", "wrap_hyperbolic"):
-            if h.kind != "plain" or h.dtype == "complex128" and how == "wrap_hyperbolic":
+            if h.kind != "plain" or (h.dtype == "complex128" or h.has_complex()) and how == "wrap_hyperbolic":
                 return None
         return op
 
@@ -666,6 +669,8 @@ class Engine:
                     nh.gens[nm] = h.value(w)[0]
                     nh.gens[nm.upper()] = h.value([inv_name(x) for x in reversed(w)])[0]
             elif how == "astype":
+                if op["dtype"] != "complex128" and h.has_complex():
+                    return "skipped:complex-to-real-cast"      # the caller asked to drop imaginary parts
                 real = a.astype(op["dtype"])
                 nh.dtype = op["dtype"]
                 F = lambda M: M
